@@ -13,6 +13,7 @@
    that were defective (Drain::drop, alloc_slice_fill) are modelled in both versions. *)
 From Coq Require Import List Permutation.
 From BS Require Import Colls CollsProofs Parts PartsProofs.
+From BS.gen Require FixFacts.
 Import ListNotations.
 
 Theorem C06_conserved_implies_exactly_once :
@@ -122,6 +123,14 @@ Proof.
   destruct H as (H1 & H2 & _). split; assumption.
 Qed.
 
+(* the repair of a genuine defect recorded in known_findings.json is still in place in the CURRENT source (tools/fixsites.py ->
+   gen/FixFacts.v, read out on every run): a `fixed:` entry suppresses nothing, and its syntactic return breaks this obligation *)
+Theorem C06_repair_in_place_defect5 : FixFacts.defect5_zst_slice_fill_goes_through_the_initializer = true.
+Proof. vm_compute. reflexivity. Qed.
+
+Theorem C06_repair_in_place_defect6 : FixFacts.defect6_zst_drain_drop_forgets_the_taken_iterator = true.
+Proof. vm_compute. reflexivity. Qed.
+
 Print Assumptions C06_conserved_implies_exactly_once.
 Print Assumptions C06_truncate.
 Print Assumptions C06_pop.
@@ -151,3 +160,5 @@ Print Assumptions C06_map.
 Print Assumptions C06_map_all_or_nothing.
 Print Assumptions C06_dedup_by_key.
 Print Assumptions C06_partition_conserves.
+Print Assumptions C06_repair_in_place_defect5.
+Print Assumptions C06_repair_in_place_defect6.
